@@ -49,6 +49,8 @@ Qed.
 
 Lemma wl_draws deg lab n : (forall j, not_query (lab j) = true) -> Forall wl1 (draws deg lab n).
 Proof. intros H. unfold draws. apply Forall_forall. intros x Hx. apply in_map_iff in Hx as (j & <- & _). apply H. Qed.
+Lemma wl_draws_at from deg lab n : (forall j, not_query (lab j) = true) -> Forall wl1 (draws_at from deg lab n).
+Proof. intros H. unfold draws_at. apply Forall_forall. intros x Hx. apply in_map_iff in Hx as (j & <- & _). apply H. Qed.
 
 Lemma wl_fri deg n : forall i, Forall wl1 (prover_fri_layers deg i n).
 Proof. induction n as [|n IH]; intros i; cbn; repeat constructor. apply IH. Qed.
@@ -59,7 +61,8 @@ Proof.
   repeat (apply Forall_app; split); try (repeat constructor; fail);
     try (apply wl_draws; intros j; reflexivity); try apply wl_fri.
   destruct (multi_segment s); [|constructor].
-  apply Forall_app; split; [apply wl_draws; intros j; reflexivity | repeat constructor].
+  apply Forall_app; split; [apply wl_draws; intros j; reflexivity|].
+  apply Forall_app; split; [apply wl_draws_at; intros j; reflexivity | repeat constructor].
 Qed.
 
 Lemma wl_prover s : Forall wl1 (prover s).
@@ -98,6 +101,22 @@ Qed.
 Lemma cok_draws deg lab n : cok 0 (draws deg lab n) n.
 Proof. apply (cok_draws_gen deg lab n 0). Qed.
 
+Lemma cok_draws_at_gen deg (lab : nat -> chal) from n : forall a,
+  cok (from + a) (map (fun j => draw1 deg (from + j) (lab j)) (seq a n)) (from + a + n).
+Proof.
+  induction n as [|n IH]; intros a.
+  - rewrite Nat.add_0_r. apply cok_nil.
+  - cbn [seq map].
+    change (draw1 deg (from + a) (lab a) :: map (fun j => draw1 deg (from + j) (lab j)) (seq (S a) n))
+      with ([draw1 deg (from + a) (lab a)] ++ map (fun j => draw1 deg (from + j) (lab j)) (seq (S a) n)).
+    eapply cok_app; [apply cok_draw1|].
+    replace (S (from + a)) with (from + S a) by lia. replace (from + a + S n) with (from + S a + n) by lia. apply IH.
+Qed.
+Lemma cok_draws_at from deg lab n : cok from (draws_at from deg lab n) (from + n).
+Proof.
+  pose proof (cok_draws_at_gen deg lab from n 0) as H. rewrite Nat.add_0_r in H. exact H.
+Qed.
+
 Lemma cok_fri deg d n : forall i a, cok a (prover_fri_layers deg i n ++ [reseed d]) 0.
 Proof.
   induction n as [|n IH]; intros i a; [apply cok_reseed|].
@@ -114,7 +133,7 @@ Proof.
   eapply cok_app; [apply cok_reseed|].
   eapply cok_app with (b := 0).
   { destruct (multi_segment s); [|apply cok_nil].
-    eapply cok_app; [apply cok_draws | apply cok_reseed]. }
+    eapply cok_app; [apply cok_draws|]. eapply cok_app; [apply cok_draws_at | apply cok_reseed]. }
   eapply cok_app; [apply cok_draws|].
   eapply cok_app; [apply cok_reseed|].
   eapply cok_app; [apply cok_draw1|].
